@@ -602,16 +602,28 @@ impl Check for C19 {
                 ctx.class("config:nested-or-overlapping-namespaces");
             }
         }
-        let loader = match LocalLoader::new(
-            world
-                .caches
-                .iter()
-                .map(|(ns, d)| (Iri::new_unchecked(MownStr::from(ns.clone())), d.clone()))
-                .collect(),
-        ) {
+        // the same configuration is built either in one go (`new`) or step by step (`new` with the
+        // first pair, then `add`): both must give the same loader
+        let pairs: Vec<(Iri<MownStr<'static>>, std::path::PathBuf)> =
+            world.caches.iter().map(|(ns, d)| (Iri::new_unchecked(MownStr::from(ns.clone())), d.clone())).collect();
+        let incremental = (cfg.len() + case.direct.len()) % 2 == 1;
+        ctx.class(if incremental { "construction:new+add" } else { "construction:new" });
+        let built = if incremental {
+            let mut it = pairs.into_iter();
+            let first: Vec<_> = it.by_ref().take(1).collect();
+            LocalLoader::new(first).and_then(|mut l| {
+                for (ns, d) in it {
+                    l.add(ns, d)?;
+                }
+                Ok(l)
+            })
+        } else {
+            LocalLoader::new(pairs)
+        };
+        let loader = match built {
             Ok(l) => l,
             Err(e) => {
-                ctx.fail("harness/loader-construction", format!("LocalLoader::new failed on a valid configuration: {e}"));
+                ctx.fail("harness/loader-construction", format!("LocalLoader::new/add failed on a valid configuration: {e}"));
                 return;
             }
         };
